@@ -122,9 +122,10 @@ class Scenario:
                     self.conn.pop((tid, p['ns']), None)
                 elif p['type'] in (2, 5) and p['id'] is not None:
                     self.outstanding.append((tid, p['ns'], p['id']))
-        if op['op'] == 'lost':
-            self.open = [t for t in self.open if t != op['t']]
-            for k in [k for k in self.conn if k[0] == op['t']]:
+        losts = [op] if op['op'] == 'lost' else [o for o in op.get('during', []) if o['op'] == 'lost' and obs.get('exc') != 'RuntimeError']
+        for lo in losts:
+            self.open = [t for t in self.open if t != lo['t']]
+            for k in [k for k in self.conn if k[0] == lo['t']]:
                 del self.conn[k]
         if op['op'] == 'frame' and op['text'][:1] == '1' and not op.get('_hostile'):
             try:
